@@ -47,6 +47,9 @@ func units(tier string) []mc.Unit {
 		for n := 1; n <= 5; n++ {
 			alpha, an := full, "full"
 			if n == 5 && tier != "thorough" {
+				if start != 1 {
+					continue // quick tier: 5 blocks only from first block 1, without metadata
+				}
 				alpha, an = noMeta, "no-metadata"
 			}
 			free := n
@@ -104,7 +107,7 @@ func main() {
 		Run:   run,
 		Setup: func(string) { kit.Quiet() },
 		Rule: "cut unit = (first block, number of blocks, layout of the leading blocks); choice points = layout of the last two " +
-			"blocks (11 options each: {0,1,2 bridges}x{0,1 claims}x metadata {0,4096} bytes; quick tier, 5 blocks: the 6 options without metadata), previous certificate " +
+			"blocks (11 options each: {0,1,2 bridges}x{0,1 claims}x metadata {0,4096} bytes; quick tier, 5 blocks: first block 1 only and the 6 options without metadata), previous certificate " +
 			"(none/settled/in error = retry), certificate type (pp/fep/optimistic); inner loops (counted as evaluations) = every " +
 			"MaxCertSize in {0,1,maxuint} U {size(prefix)-1,size,size+1 for every prefix} through the real base flow, then for every " +
 			"distinct size-limited result every MaxL2BlockNumber in 0..from+6 through the real limiter in each configuration the " +
@@ -121,7 +124,7 @@ func main() {
 			"[0,0] doubles as the empty BlockRange and CountBlocks of [0,2^64-1] is not representable: both are reported, not judged",
 		},
 		Bounds: func(tier string) map[string]any {
-			perBlock := "{0,1,2 bridges}x{0,1 claims}x metadata {0,4096} for 1..4 blocks; without metadata for 5 blocks"
+			perBlock := "{0,1,2 bridges}x{0,1 claims}x metadata {0,4096} for 1..4 blocks; 5 blocks: first block 1 only, without metadata"
 			if tier == "thorough" {
 				perBlock = "{0,1,2 bridges}x{0,1 claims}x metadata {0,4096}"
 			}
